@@ -158,11 +158,11 @@ PROPS = {
                  'T8 rely: at every lock acquisition the store may have become ANY store satisfying the invariant (other threads keep the invariant); guarantee: this thread keeps it (lemmas of unit ptlookup)'],
     ),
     'C04': dict(
-        vx_units=['iobuffers', 'fusedevw', 'asyncdevw', 'virtiofsw', 'virtiofsw_async', 'writerenum'], kx=['file_buf'],
+        vx_units=['iobuffers', 'fusedevw', 'asyncdevw', 'virtiofsw', 'virtiofsw_async', 'writerenum', 'readerrd'], kx=['file_buf'],
         design_ref='DESIGN.md A.4',
         not_covered=[
             'IoBuffers::available_bytes (iterator fold): assumed contract (returns the number of addresses still covered when that fits in usize)',
-            'Reader::{read, read_obj} (closure captures &mut buf, MaybeUninit), VirtioFsWriter::{write_vectored, write_obj, new}, Reader::from_descriptor_chain (descriptor chain -> slices)',
+            'virtio-queue / vm-memory themselves: DescriptorChain::{readable, writable} and their iterators, GuestMemory::find_region, GuestMemoryRegion::get_slice are models written from the texts of virtio-queue 0.17.0 / vm-memory 0.17.1 (indirect tables, the 2^32 cap of a chain are theirs); guest memory is a snapshot during one operation (a guest modifying a request buffer while it is read is not modelled); std read_exact / write_all are verified hand copies of the std text',
             'contents of the bytes a file transfer appends (that the file fills exactly what it reports is assumed); FuseDevWriter::write_all_from on an UNBUFFERED writer (stated as a precondition: a second round trips the writer\'s own assert - public-API observation F1, not reachable through the server); slice totals >= 2^64 in write_vectored',
             'file-buffer adapters (FileVolatileSlice) as plain views: KX harnesses (see units kx:file_buf when listed), lengths up to the stated bound only',
         ],
@@ -172,14 +172,13 @@ PROPS = {
                  'write / writev / pwrite on /dev/fuse are all-or-nothing (fuse_dev_do_write); Vec capacity/base uninterpreted with len <= capacity; Vec::set_len by assume_specification; std Write::write_all as a hand copy of the std text'],
     ),
     'C17': dict(
-        vx_units=['iobuffers', 'virtiofsw', 'virtiofsw_async', 'writerenum'], kx=[],
+        vx_units=['iobuffers', 'virtiofsw', 'virtiofsw_async', 'writerenum', 'readerrd'], kx=[],
         alias=[r'^C04\.writer\.', r'^C20\.writer\.'],      # the Writer enum hands the operation to the wrapped writer unchanged (a wrong forward loses or misplaces the marking)
         design_ref='DESIGN.md A.4',
         not_covered=[
-            'VirtioFsWriter::write_vectored and write_obj (fold / std write_all; they only call write)',
-            'VirtioFsWriter::new and Reader::from_descriptor_chain (descriptor chain -> slices; the source of the chain-length invariant bytes_consumed + available <= usize::MAX, a hypothesis of the err_unmarked clauses)',
+            'contents of the guest memory written by write_vectored / write_obj (the contract of write exports the addresses, not the bytes); the chain-length invariant bytes_consumed + available <= usize::MAX is now ESTABLISHED by the constructors (unit readerrd: length_fits) and remains a hypothesis of the per-operation clauses',
             'async_write_all (std write_all over write); Reader::async_read_to_at / prepare_io_buf (reads; never mark); that the AsyncFileReadWriteVolatile impl for File (io-uring) fills exactly the reported prefix (assumed)',
-            'the counter-overflow error path of mark_used after marking; Reader::read and read_obj (closure captures &mut, MaybeUninit)',
+            'the counter-overflow error path of mark_used after marking',
             'page granularity of the real bitmap (the model is byte granular; pages are the monotone image of bytes); concurrency',
         ],
         trusted=['T3\' vm-memory VolatileSlice/Bitmap model: address, length, offset, subslice, bitmap().base == addr, mark_dirty adds [base+off, +len) and nothing for len 0',
